@@ -198,7 +198,16 @@ def run(tier, seed, drv):
                     elif rc != 0:
                         rep["machinery_errors"].append(f"Miri on generated crate {prefix}_{si} failed (rc={rc}): {err[-500:]}")
     # ---- merge
-    rt = native_result()
+    nth.join()
+    if ("exit" in native or "exc" in native) and any(v.get("class") == "miri-ub" for v in rep["violations"]):
+        # the native process died abnormally while the interpreter reports undefined behaviour on the same tree: a native
+        # run that executes undefined behaviour may do anything (seed C01-13: exit 0 in one run, a silent exit 101 in the
+        # next), so the interpreter's report is the verdict and the native stage contributes nothing
+        rep["notes"].append("native oracle stage ended abnormally (" + str(native.get("exit", native.get("exc"))) + "); undefined behaviour is reported by the interpreter stage, which explains it")
+        rep.setdefault("caps_hit", []).append("native oracle stage lost to undefined behaviour")
+        rt = {}
+    else:
+        rt = native_result()
     for v in rt.get("violations", []):
         v = dict(v)
         v["class"] = "oracle"
